@@ -92,6 +92,7 @@ def run_cases(ctx, pairs, name="mod"):
     for main, raw in pairs:
         r = out[main["id"]]
         rc = enumgen.last_rc(r["runs"])
+        enumgen.check_infra(r["compile"])
         rel, gen = enumgen.generated_file(r["written"])
         im = {"exit": str(rc)}
         main["detail"] = {"stderr": r["runs"][-1]["stderr"][-400:], "compile": r["compile"], "generated": rel}
